@@ -224,9 +224,13 @@ def oracle(h, prop):
                     if int(ok_) < 1:
                         ks = sorted(bytes.fromhex(kk) for kk in committed[hgt][store])
                         qk = bytes.fromhex(key)
-                        ff = any(0xff in x for x in ks + [qk])
+                        cause = "other"
+                        if any(len(x) < len(qk) and qk.startswith(x) for x in ks):
+                            cause = "query-key-extends-an-existing-key"
+                        elif any(0xff in x for x in ks + [qk]):
+                            cause = "0xff-byte-in-store-or-key"
                         return i, "%s proof does not verify against the app hash of height %d" % ("absence" if exp is None else "existence", hgt), \
-                            {"kind": "proof-invalid", "absence": exp is None, "ff_byte_in_store_or_key": ff}
+                            {"kind": "proof-invalid", "absence": exp is None, "cause": cause}
                     if int(wrong) > 0:
                         return i, "proof for height %d verifies against another height's app hash" % hgt, {"kind": "proof-not-binding"}
             else:
